@@ -314,7 +314,7 @@ def g_text(rng):
     if r < 0.9:
         return rng.choice(["é", "中文 text", "\U0001f600", "ß'\\", "　x", "\x7f", "tab\there", "nl\nhere",
                            # line structure inside a value (LDIF-style folding, continuation lines) is data here
-                           "Summary:\n indented detail", "a\r\n b", "x\n\n  y", "\n ", " \n", "line1\r\nline2"])
+                           "see X-SUBST (notes)", "plot x-axis (time)", "then X-A 'b'", "NAME 'x' DESC 'y'", "a ) X-B ( c", "Summary:\n indented detail", "a\r\n b", "x\n\n  y", "\n ", " \n", "line1\r\nline2"])
     return "".join(chr(rng.choice([rng.randint(1, 0x7F), rng.randint(0x80, 0x7FF), rng.randint(0x800, 0xD7FF), rng.randint(0x10000, 0x10FFFF)])) for _ in range(rng.randint(1, 8)))
 
 
